@@ -79,6 +79,12 @@ def lin(e):
         return (e, 0)
     if e[0] == "cast":
         return lin(e[1])
+    if e[0] == "call" and isinstance(e[2], str) and e[2].endswith(("::wrapping_add", "::saturating_add", "::unchecked_add")) and len(e[3]) == 2:
+        (b1, o1), (b2, o2) = lin(e[3][0]), lin(e[3][1])
+        if b2 is None:
+            return (b1, o1 + o2)
+        if b1 is None:
+            return (b2, o1 + o2)
     return (e, 0)
 
 
@@ -217,3 +223,50 @@ def strip_clone(e):
     while e[0] == "call" and e[2] == "Clone::clone" and e[3]:
         e = e[3][0]
     return e
+
+
+def resolve_phis(path, idx, e):
+    """Path-sensitive value of a multi-assigned local: replace phi nodes by the last assignment seen on this path before idx."""
+    last = {}
+    for ev in path.events[:idx]:
+        if ev[0] == "set":
+            last[ev[1]] = ev[2]
+    def fn(x):
+        if x[0] == "phi" and len(x) > 2 and x[2] in last:
+            return last[x[2]]
+        return None
+    return rewrite(e, fn)
+
+
+def _const_bool(x):
+    if x is None or x[0] != "const" or x[3] is None:
+        return None
+    return bool(x[3])
+
+def raises_flag(e):
+    """An atomic effect that leaves a bool flag raised: store(true), swap(true), fetch_or(true), compare_exchange(false, true)."""
+    if e.kind != "atomic":
+        return False
+    if e.op in ("store", "swap", "fetch_or"):
+        return _const_bool(e.operand) is True
+    if e.op in ("compare_exchange", "compare_exchange_weak"):
+        return _const_bool(e.operand) is False      # expected false: the only effective bool transition is to true
+    return False
+
+def lowers_flag(e):
+    if e.kind != "atomic":
+        return False
+    if e.op in ("store", "swap", "fetch_and"):
+        return _const_bool(e.operand) is False
+    if e.op in ("compare_exchange", "compare_exchange_weak"):
+        return _const_bool(e.operand) is True
+    return False
+
+def flag_observation(x):
+    """If x is an observation of an atomic bool flag, return its cell key: a plain load, or the previous value returned by a
+    swap(true) / fetch_or(true) (which tests and raises in one step)."""
+    if x[0] == "aload":
+        return cell_key(x[1])
+    if x[0] == "rmw" and x[2] in ("swap", "fetch_or", "fetch_and") and x[3] is not None and x[3][0] == "const":
+        return cell_key(x[1])
+    return None
